@@ -15,7 +15,20 @@ PKGS=$(python3 -c "import json;print(' '.join('./'+p.replace('github.com/refract
 echo "packages: $PKGS"
 git apply $D/patch.diff || { echo "RESULT patch-does-not-apply"; exit 2; }
 go build ./... || { echo "RESULT does-not-compile"; exit 2; }
-EX=pass; for p in $PKGS; do go test -count=1 -vet=off $p >/tmp/sv-$$.log 2>&1 || { EX=fail; tail -5 /tmp/sv-$$.log; }; done
+# "existing tests" = the pinned baseline's stable-pass tests of each touched package (the root package's
+# full run panics in an unrelated test on the pristine tree, so the baseline only lists what passes)
+EX=pass; for p in $PKGS; do
+  RX=$(python3 - "$p" <<'PY'
+import json,sys
+p=sys.argv[1].lstrip('./')
+pkg='github.com/refraction-networking/uquic'+('/'+p if p else '')
+names=sorted({x.split('::')[1].split('/')[0] for x in json.load(open('/root/.vp/BASELINE.json'))['stable_pass'] if x.split('::')[0]==pkg})
+print('^('+'|'.join(names)+')$' if names else '')
+PY
+)
+  [ -z "$RX" ] && RX='.'
+  go test -count=1 -vet=off -run "$RX" $p >/tmp/sv-$$.log 2>&1 || { EX=fail; grep -E "^(--- FAIL|FAIL|panic)" /tmp/sv-$$.log | head -5; }
+done
 echo "existing tests with patch: $EX"
 DEMO=$(ls $D/*_test.go | head -1); DP=$(echo $PKGS | awk '{print $1}')
 [ -f "$D/demo_pkg" ] && DP=$(cat $D/demo_pkg)
